@@ -35,6 +35,10 @@ def _models():
                                                  index_below=2.0),
         "antarctic_none": lambda: AntarcticIce(n0=1.9, k=0.5, a=0.008, valid_range=(-2000, 0), index_above=None,
                                                index_below=None),
+        # a thin sheet: at its bottom the profile is still far from its asymptote n0
+        "antarctic_shallow_none": lambda: AntarcticIce(valid_range=(-600, 0), index_below=None),
+        # the valid range written top-first (the constructor normalises it)
+        "uniform_reversed": lambda: UniformIce(1.6, valid_range=(0, -200), index_above=1.0, index_below=1.9),
         "uniform_1_None": lambda: UniformIce(1.5, valid_range=(-1000, 0), index_above=1, index_below=None),
         "uniform_None_None": lambda: UniformIce(1.78, valid_range=(-300, -100), index_above=None, index_below=None),
         "uniform_1_1.9": lambda: UniformIce(1.6, valid_range=(-800, 0), index_above=1, index_below=1.9),
@@ -88,7 +92,9 @@ def evaluate(case):
             extra += [b, b + 2.0 ** -10, b - 2.0 ** -10]
         depths = _depths(lo, hi, extra)
     else:
-        lo, hi = ice.valid_range
+        lo, hi = sorted(ice.valid_range)
+        if tuple(ice.valid_range) != (lo, hi):
+            fail("range-order", "valid_range is stored as %r, documented as (lower, upper)" % (tuple(ice.valid_range),))
         depths = _depths(lo, hi)
     exp_like = hasattr(ice, "k") and hasattr(ice, "a")
 
@@ -104,6 +110,9 @@ def evaluate(case):
         want_above, want_below = ice.index_above, ice.index_below
         if name == "layered_none":
             want_above, want_below = float(ice.layers[0].index(hi)), float(ice.layers[-1].index(lo))
+        if name in ("antarctic_none", "antarctic_shallow_none"):
+            # "no index below given": the index continues with its value at the bottom of the range (closed form, not read back)
+            want_below = ice.n0 - ice.k * math.exp(ice.a * lo)
         if z > hi and not scal[z] == want_above:
             fail("index-above", "index(%r)=%r but the declared index above the range is %r" % (z, scal[z], want_above), z=z)
         if z < lo and not scal[z] == want_below:
